@@ -265,7 +265,11 @@ func (g *Gen) Next() impl.Op {
 		if r.Chance(g.p.Invalid) {
 			t = common.Pick(r, []int32{0, -1, -2147483648})
 		}
-		return impl.Op{Kind: "renew", Name: n, Key: k, T: t}
+		rs := "-"
+		if len(g.live) > 0 && r.Chance(70) {
+			rs = common.Pick(r, g.live) // any connected session, the holder's or another one
+		}
+		return impl.Op{Kind: "renew", Sid: rs, Name: n, Key: k, T: t}
 	case "adv":
 		return impl.Op{Kind: "adv", D: g.advance()}
 	case "disconnect":
